@@ -383,6 +383,7 @@ fn read_cleartext_body<B: BufRead>(b: &mut B) -> Result<(String, String)> {
     let mut out = String::new();
 
     loop {
+        let line_start = out.len();
         let read = b.read_line(&mut out)?;
         // early end
         if read == 0 {
@@ -394,8 +395,14 @@ fn read_cleartext_body<B: BufRead>(b: &mut B) -> Result<(String, String)> {
             return Ok(("".to_string(), out));
         }
 
-        // Look for header start in the last line
-        if let Some(pos) = out.rfind("\n-----") {
+        // Look for header start in the line that was just read
+        // (all earlier lines have been checked already)
+        let pos = if line_start > 0 && out[line_start..].starts_with("-----") {
+            Some(line_start - 1)
+        } else {
+            None
+        };
+        if let Some(pos) = pos {
             // found our end
             let rest = out.split_off(pos + 1);
 
